@@ -223,6 +223,21 @@ class ConwipCb:
             self.log.conwip_jobs = getattr(self.log, 'conwip_jobs', 0) + 1
 
 
+class SinkFeeCb:
+    """Workload callback (receive callback of a sink): the part that has just been received is written down by a fee -
+    after receipt, so the sink has booked the value the part had when it arrived."""
+
+    def __init__(self, fee):
+        self.fee = fee
+
+    def __call__(self, dev, part):
+        if instrument.PROBING:
+            return
+        for leaf in leaves_of(part):
+            if getattr(leaf, 'env', None) is not None:
+                leaf.add_value('written_off_at_the_sink', -self.fee)
+
+
 class StopInReleaseWindowCb:
     """Workload callback (finish callback of a resource-holding processor): every k-th finish it schedules, for this
     very instant, a planned stop at a priority just below the machine's release check (so the stop lands between
@@ -894,6 +909,9 @@ def build(spec, bus=None, script=True, system=None, known=None):
             raise ValueError(k)
         if isinstance(d, PartHandler) and k != 'source':
             d.add_receive_part_callback(ReceiveCb(log, i))
+        if k == 'sink' and it.get('fee'):
+            # a receive callback of the sink that writes part of the received part's value off (after receipt)
+            d.add_receive_part_callback(SinkFeeCb(it['fee']))
         w.devs[i] = d
         m.id_of[id(d)] = i
     if script:
